@@ -27,6 +27,7 @@ type Scenario struct {
 type World struct {
 	Mode     string   `json:"mode,omitempty"`  // "production" | "testing" (argv0 spoof)
 	Home     string   `json:"home,omitempty"`  // $HOME of the world process
+	Args     []string `json:"argv,omitempty"`  // further command-line arguments of the world process (it ignores them; libraries that inspect os.Args do not)
 	Cwd      string   `json:"cwd,omitempty"`   // working directory of the world process
 	Flags    []string `json:"flags,omitempty"` // added on top of the defaults
 	NoFlags  []string `json:"noflags,omitempty"`
